@@ -22,6 +22,7 @@ type Meta struct {
 	ExpectKey  string   `json:"expect_key_contains"`
 	Clears     string   `json:"clears_key_contains"` // mutant that must make a finding disappear
 	Needs      string   `json:"needs"`
+	Tier       string   `json:"tier"` // "thorough" if the mutant only shows in a configuration of the thorough tier
 }
 
 type mutant struct {
@@ -85,7 +86,7 @@ func Run(prop *core.Property, seed int) *core.SelfTestReport {
 	core.NoReplay = true
 	defer func() { core.NoReplay = false; os.Unsetenv("VERIF_REPO") }()
 	os.Unsetenv("VERIF_REPO")
-	base := core.RunProperty(prop, "quick", seed, "")
+	base := core.RunProperty(prop, "thorough", seed, "")
 	baseSet := map[string]bool{}
 	for _, o := range base.Obligations {
 		baseSet[key(o)] = true
@@ -113,7 +114,11 @@ func Run(prop *core.Property, seed int) *core.SelfTestReport {
 				return
 			}
 			os.Setenv("VERIF_REPO", dir)
-			res := core.RunProperty(prop, "quick", seed, m.meta.ExpectRule)
+			tier := "quick"
+			if m.meta.Tier == "thorough" {
+				tier = "thorough"
+			}
+			res := core.RunProperty(prop, tier, seed, m.meta.ExpectRule)
 			os.Unsetenv("VERIF_REPO")
 			core.DropProgramsFor(dir)
 			rep.Run++
